@@ -598,6 +598,18 @@ Proof.
   - intros l l' H. cbn [read_tsv]. unfold tsv_line. rewrite H. reflexivity.
 Qed.
 
+(** a blank line is a discarded line: counted, no triple (this is where the
+    repaired [log_msg] call enters: [c08_tsv_discard_log_fits]) *)
+Theorem read_tsv_blank_silent pyfloat : blank_silent (read_tsv pyfloat).
+Proof.
+  intros l H. exists 1. cbn [read_tsv]. unfold tsv_line. rewrite H. reflexivity.
+Qed.
+
+(** rdflib literals: the element type is the N-Triples one, whatever the lexical form *)
+Theorem turn_literal_kinded lex k :
+  exists content, turn_literal (rlit_of lex k) = inl (MLit content (dt_of k)).
+Proof. destruct k; eexists; reflexivity. Qed.
+
 (** *** strings *)
 
 Lemma no_char_not_in c s : no_char c s = true -> ~ In c s.
@@ -1032,7 +1044,7 @@ Section TsvTheorem.
     rewrite (split1_last TAB _ [] (tab_not_in_obj _ Ho)). reflexivity.
   Qed.
 
-  Lemma tsv_line_ok t : triple_ok t = true -> tsv_line pyfloat (tsv_line_of t) = inl (Some (m_of t)).
+  Lemma tsv_line_ok t : triple_ok t = true -> tsv_line pyfloat (tsv_line_of t) = inl (TYield (m_of t)).
   Proof.
     intros H. destruct (triple_ok_parts t H) as (Hs & Hp & Ho).
     unfold tsv_line. rewrite (strip_tsv_line t H), (split_tsv_line t H).
@@ -1163,8 +1175,8 @@ Proof.
     by (apply (rename_triple_typing f tau (t :: g)); [exact Ht | left; reflexivity]).
   pose proof (typing_iri_tail tau t g Ht) as Ht'.
   rewrite (cap_allows_rename f tau cap st t Hfix), (relevant_rename f tau m t Hfix).
-  destruct (cap_allows tau cap st t) as [[|]|]; [|apply IH; exact Ht' | reflexivity].
   destruct (relevant tau m t) eqn:R; [|apply IH; exact Ht'].
+  destruct (cap_allows tau cap st t) as [[|]|]; [|apply IH; exact Ht' | reflexivity].
   assert (rename_triple f t = t) as ->.
   { apply Hfix. unfold relevant in R. apply andb_true_iff in R. tauto. }
   destruct (to t); [|reflexivity].
@@ -1601,7 +1613,7 @@ Section ChannelIndependence.
       cbn [List.concat] in Hok. apply Forall_app in Hok. destruct Hok. constructor; auto. }
     apply (channel_independent_files c thr (Str "tsv_spo") (read_tsv pyfloat) o1 o1 o2 cm lss stored (map m_of g) (kinded g)
              (Fam_tsv pyfloat read_nt) (read_tsv_compositional pyfloat)); try assumption.
-    - right. rewrite Hc. apply tsv_lines_all_nonblank. exact Hd.
+    - left. apply read_tsv_blank_silent.
     - rewrite Hc. exact H1.
   Qed.
 End ChannelIndependence.
